@@ -16,8 +16,9 @@ END  = "flush" | "close" | "exit" | "exit_exc" | "none" | "flush_flush" | "late"
 out  = {"flush_points": [flatten(walk) per flush point], "final_walk": full walk at the last flush point,
         "ops": [executed op log], "mode": ..., "end": ..., "pre_walk_equal_post": bool|None}
 
-PROFILE = "mixed" (all operations) | "inplace" (overwrites of stored samples, small appends, timestamp touches:
-          nothing that needs new file space) | "delete_only" | "append_only" | "attrs_only" - a phase of one kind
+PROFILE = "mixed" (all operations) | "overwrite" (overwrites of stored samples, timestamp touches: nothing that
+          needs new file space) | "small_append" (a few samples appended, preferably to arrays that were appended
+          to before, i.e. inside an allocated chunk) | "delete_only" | "append_only" | "attrs_only" - a phase of one kind
           of write between two flush points; creation fall-backs are disabled in such a phase.
 
 Nothing touches the NIX file between the final flush()/close() and the SIGKILL: the side file is an ordinary
@@ -49,6 +50,7 @@ class Gen:
         self.counter = 0
         self.keep = []      # live handles (open HDF5 ids) at the time of flush()/close()
         self.profile = "mixed"
+        self.warm = set()   # (block, array) names that received a small append
 
     @property
     def strict(self):
@@ -620,7 +622,11 @@ class Gen:
         das = [d for d in self.arrays(blk) if d.dtype.kind in "fiu" and len(d.shape) == 1 and d.shape[0] > 0]
         if not das:
             return ["noop", "small_append"]
-        da = self.pick(das)
+        # prefer an array that was appended to before (in an earlier phase too): its last chunk is allocated
+        # and partly filled, so these samples need no new file space
+        warm = [d for d in das if (blk.name, d.name) in self.warm]
+        da = self.pick(warm) if warm and self.rng.random() < 0.8 else self.pick(das)
+        self.warm.add((blk.name, da.name))
         k = self.rng.choice([1, 1, 2, 3])
         da.append(self.mkdata(da.dtype.str.lstrip("<|="), (k,)))
         return ["small_append", blk.name, da.name, k]
@@ -637,7 +643,8 @@ class Gen:
         return ["touch", blk.name, e.name]
 
     PROFILES = {
-        "inplace": [("overwrite", 5), ("small_append", 4), ("touch", 3), ("write_slice", 2)],
+        "overwrite": [("overwrite", 5), ("touch", 3), ("write_slice", 2)],
+        "small_append": [("small_append", 1)],
         "delete_only": [("delete", 1)],
         "append_only": [("append", 3), ("small_append", 2), ("frame_rows", 1)],
         "attrs_only": [("attrs", 4), ("mod_section", 2), ("mod_property", 3), ("touch", 2), ("metadata", 1)],
